@@ -59,9 +59,11 @@ pub fn preset(property: &str, tier: &str, run_seed: u64) -> SwarmCfg {
         }
     }
     cfg.weights = wv(&base);
+    // application rule knob: do custom proposals require an update path? (the same for every member of a run)
+    cfg.knobs.push(("custom-path".into(), r.below(2)));
     match property {
         "C01" => {
-            cfg.oracles = sv(&["agreement"]);
+            cfg.oracles = sv(&["agreement", "path-required"]);
             cfg.faults = sv(&["N-DROP", "N-DUP", "N-REORD", "N-RACE", "N-STALE"]);
             cfg.weights.push(("crash".into(), if r.chance(1, 2) { 1 } else { 0 }));
             cfg.weights.push(("reload".into(), 8));
@@ -139,6 +141,10 @@ impl Gen {
                 matches!(st, Status::Never | Status::Removed) && !w.parties[*p].crashed
             })
             .collect();
+        let outsiders: Vec<usize> = match w.cfg.knob("banned") {
+            Some(_) => outsiders.into_iter().filter(|q| *q != n - 1).collect(),
+            None => outsiders,
+        };
         let stuck: Vec<usize> = (0..n)
             .filter(|p| {
                 matches!(w.mem_ref(*p, g).map(|m| m.status.clone()), Some(Status::Stuck(_)))
@@ -307,6 +313,8 @@ impl Gen {
                     )
             })
             .collect();
+        let banned = w.cfg.knob("banned").map(|_| n - 1);
+        let outsiders: Vec<usize> = outsiders.into_iter().filter(|q| Some(*q) != banned).collect();
         let r = &mut w.prng;
         let mut spec = CommitSpec {
             ratchet_tree_ext: r.chance(2, 3),
@@ -371,6 +379,8 @@ impl Gen {
             })
             .collect();
         let others: Vec<usize> = members.iter().copied().filter(|q| *q != p).collect();
+        let banned = w.cfg.knob("banned").map(|_| n - 1);
+        let outsiders: Vec<usize> = outsiders.into_iter().filter(|q| Some(*q) != banned).collect();
         let r = &mut w.prng;
         let mut opts: Vec<u32> = vec![
             if outsiders.is_empty() { 0 } else { 5 },
